@@ -640,6 +640,47 @@ def gen_is_transportable(pmod):
             "    k <- of_opt EInvalidValue (first_idle jb) ;;\n    o <- of_opt EInvalidValue (nth_error (j_ops jb) k) ;;\n"
             "    _ <- get_mach x (o_mach o) ;;\n    Ok (if is_job_at_machine jb (o_mach o) then %s else %s).\n" % (c0, c1, c4, c5))
 
+GROUP_OPS_BODY = """if isinstance(job_states, JobState):
+    job_states = [job_states]
+operations = (operation for job in job_states for operation in job.operations)
+grouped_operations = {}
+for operation in operations:
+    if operation.operation_state_state not in grouped_operations:
+        grouped_operations[operation.operation_state_state] = []
+    grouped_operations[operation.operation_state_state].append(operation)
+return grouped_operations"""
+
+
+def gen_next_op_free(pmod, jmod):
+    """is_job_next_operation_free: no PROCESSING record, at least one IDLE record (via group_operations_by_state, whose body
+    must be the known grouping loop: a key is present iff some record has that state, with a non-empty list)"""
+    g = find_func(jmod.body, "group_operations_by_state")
+    if "\n".join(ast.unparse(st) for st in body_wo_doc(g)) != GROUP_OPS_BODY:
+        raise Unsupported("group_operations_by_state changed")
+    f = find_func(pmod.body, "is_job_next_operation_free")
+    if [a.arg for a in f.args.args] != ["job_state"]:
+        raise Unsupported("is_job_next_operation_free signature")
+    b = body_wo_doc(f)
+    if not (len(b) == 3 and ast.unparse(b[0]) == "grouped_operations = job_type_utils.group_operations_by_state(job_state)"
+            and isinstance(b[1], ast.If) and isinstance(b[2], ast.If)):
+        raise Unsupported("is_job_next_operation_free shape")
+    t1, t2 = ast.unparse(b[1].test), ast.unparse(b[2].test)
+    pre1, suf1 = "grouped_operations.get(OperationStateState.", ") is not None"
+    pre2, suf2 = "len(grouped_operations.get(OperationStateState.", ", [])) == 0"
+    if not (t1.startswith(pre1) and t1.endswith(suf1) and t2.startswith(pre2) and t2.endswith(suf2)):
+        raise Unsupported("is_job_next_operation_free tests: %s / %s" % (t1, t2))
+    s1, s2 = t1[len(pre1):-len(suf1)], t2[len(pre2):-len(suf2)]
+    if s1 not in OSTATE or s2 not in OSTATE:
+        raise Unsupported("is_job_next_operation_free states: %s / %s" % (s1, s2))
+    if b[1].orelse or len(b[1].body) != 1 or len(b[2].body) != 1 or len(b[2].orelse) != 1:
+        raise Unsupported("is_job_next_operation_free branches")
+    c1 = _ret_const(b[1].body[0], "is_job_next_operation_free")
+    c2 = _ret_const(b[2].body[0], "is_job_next_operation_free")
+    c3 = _ret_const(b[2].orelse[0], "is_job_next_operation_free")
+    return ("Definition gen_is_job_next_operation_free (jb : job) : bool :=\n"
+            "  if existsb (is_ostate %s) (j_ops jb) then %s\n  else if negb (existsb (is_ostate %s) (j_ops jb)) then %s else %s.\n"
+            % (OSTATE[s1], c1, OSTATE[s2], c2, c3))
+
 
 def main():
     tmod = parse("jobshoplab/state_machine/core/transitions.py")
@@ -695,6 +736,7 @@ def main():
     out.append(gen_is_ready(bmod))
     out.append(gen_is_early(pmod))
     out.append(gen_is_transportable(pmod))
+    out.append(gen_next_op_free(pmod, jmod))
     OUT.parent.mkdir(parents=True, exist_ok=True)
     text = "\n".join(out)
     if not OUT.exists() or OUT.read_text() != text:
